@@ -48,7 +48,7 @@ GENERIC3 = ["typing.Generator", "typing.Coroutine"]
 # add the import, and the parser must read that back.
 CLASHING_CLASS_NAMES = ["str", "list", "type", "object", "Any", "Union", "Optional",
                         "Callable", "dict", "Type", "List",
-                        "Final", "Annotated", "Never", "Protocol"]
+                        "Final", "Annotated", "Never"]
 SPECIAL_FORM_NAMES = frozenset([
     "Literal", "Optional", "Union", "Callable", "Type", "Final", "Annotated", "Generic",
     "Protocol", "Never", "Any", "tuple", "type", "List", "dict", "list"])
